@@ -49,6 +49,9 @@ class MaybeUnbound:
         self.flag, self.value = flag, value
 
 
+RENAME = [{}]          # contract-name -> current-name of locals that were purely renamed (set per unit by Run)
+
+
 class View:
     """attribute access to an environment for contract lambdas: s.times, s.status ..."""
 
@@ -61,17 +64,22 @@ class View:
         if k in ex:
             return ex[k]
         env = object.__getattribute__(self, '_env')
+        if k not in env and RENAME[0].get(k) in env:
+            k = RENAME[0][k]          # the local was renamed in the current code (pure renaming w.r.t. the pinned tree)
         if k in env:
             v = env[k]
             return v.value if isinstance(v, MaybeUnbound) else v
         raise Unbindable('contract refers to %r which is not bound in the analysed function' % k)
 
     def has(self, k):
-        return k in object.__getattribute__(self, '_env') or k in object.__getattribute__(self, '_extra')
+        env = object.__getattribute__(self, '_env')
+        return k in env or RENAME[0].get(k) in env or k in object.__getattribute__(self, '_extra')
 
     def bound(self, k):
         """is the local name k definitely bound here? (z3 Bool)"""
         env = object.__getattribute__(self, '_env')
+        if k not in env and RENAME[0].get(k) in env:
+            k = RENAME[0][k]
         if k not in env:
             return BoolVal(False)
         v = env[k]
@@ -80,6 +88,8 @@ class View:
     def val(self, k, sort):
         """value of local k, or an arbitrary value of `sort` when it is not bound"""
         env = object.__getattribute__(self, '_env')
+        if k not in env and RENAME[0].get(k) in env:
+            k = RENAME[0][k]
         if k not in env:
             return fresh('unbound_' + k, sort)
         v = env[k]
@@ -154,6 +164,8 @@ class Run:
         self.loop_ord = 0
         from . import values as _values
         _values.CURRENT_RUN[0] = self
+        RENAME[0] = dict(getattr(unit, 'rename', None) or {})
+        self._rename_rev = {v: k for k, v in RENAME[0].items()}
         self.site_ord = {}
         self.call_log = []          # (callee, static ordinal, line) of every modular call made on this path
         self.draws = []
@@ -815,6 +827,32 @@ class Run:
         self.site_ord['call:' + q] = k + 1
         return len(lines) + k
 
+    def env_view(self):
+        """the current environment as a mapping keyed by the names the sidecar contract uses (renaming of locals applied)"""
+        run = self
+
+        class _Env:
+            def __getitem__(self, k):
+                return run.local(k)
+
+            def __contains__(self, k):
+                return k in run.cur_env or RENAME[0].get(k) in run.cur_env
+
+            def get(self, k, default=None):
+                return run.local(k) if k in self else default
+        return _Env()
+
+    def local(self, name):
+        """value of a local / parameter of the analysed function as the sidecar contract names it (read through the renaming of
+        locals when the current code renamed it); Unbindable when there is no such name"""
+        env = self.cur_env
+        if name not in env and RENAME[0].get(name) in env:
+            name = RENAME[0][name]
+        if name not in env:
+            raise Unbindable('contract refers to %r which is not bound in the analysed function' % name)
+        v = env[name]
+        return v.value if isinstance(v, MaybeUnbound) else v
+
     def call_contract(self, q, args, kw, lineno):
         """modular call: precondition -> obligation, frame havocked, postcondition assumed"""
         c = self.registry.get(q)
@@ -939,7 +977,7 @@ class Run:
             key = ast.unparse(target)
         except Exception:
             return val
-        mk = self.unit.locals_.get(key)
+        mk = self.unit.locals_.get(self._rename_rev.get(key, key) if isinstance(key, str) else key)
         if mk is None and isinstance(val, Untyped) and getattr(val, 'default_factory', None) is not None:
             return val.default_factory()
         if mk is None:
@@ -955,7 +993,7 @@ class Run:
     def assign(self, target, val, env, lineno):
         val = self.resolve_untyped(target, val)
         if isinstance(target, ast.Name):
-            ls = self.unit.local_sorts.get(target.id)
+            ls = self.unit.local_sorts.get(self._rename_rev.get(target.id, target.id))
             if ls is not None and z3.is_expr(val):
                 val = coerce(val, so.S[ls] if ls in so.S else {'R': R, 'I': I}[ls])
             env[target.id] = val
@@ -1222,7 +1260,7 @@ class Run:
             if isinstance(v, MaybeUnbound):
                 v = None
             if v is None:
-                mk = self.unit.locals_.get(nm)
+                mk = self.unit.locals_.get(self._rename_rev.get(nm, nm))
                 if mk is not None:
                     # not bound at loop entry: bound or not after some iterations (ghost flag)
                     env[nm] = MaybeUnbound(fresh('bound_' + nm, B), mk(self, nm))
@@ -1231,7 +1269,7 @@ class Run:
                 env[nm] = fresh(nm, v.sort())
             elif hasattr(v, 'havoc'):
                 # the NAME may be rebound to another object of the same shape: give it a fresh object
-                mk = self.unit.locals_.get(nm)
+                mk = self.unit.locals_.get(self._rename_rev.get(nm, nm))
                 if mk is not None:
                     env[nm] = mk(self, nm)
                     self.assume(env[nm].wellformed())
@@ -1241,7 +1279,7 @@ class Run:
                     env[nm] = nv
                     self.assume(nv.wellformed())
             elif v is NONE or isinstance(v, (tuple, PyConst, Closure, _EmptyList, _EmptyDict, _PyList)):
-                mk = self.unit.locals_.get(nm)
+                mk = self.unit.locals_.get(self._rename_rev.get(nm, nm))
                 if mk is not None:
                     env[nm] = mk(self, nm)
                 elif isinstance(v, tuple) and all(z3.is_expr(x) for x in v):
